@@ -467,6 +467,7 @@ func (p *peerTask) RunEvent(time.Time) {
 
 //go:norace
 func (a *adm) fin(b *bool) {
+	a.k.Announce()
 	a.k.Lock()
 	*b = true
 	a.k.Unlock()
